@@ -143,18 +143,22 @@ DropSenders(w, ls) ==
 RemoveSlot(w, n, rep, cmsg) ==
     LET slot == w.slots[n]
         h == slot.h
-        w1 == PushRep(w, h, rep)
+        \* a server close tells the consumers first and wakes the caller last (the caller may let go of its
+        \* consumers as soon as it has the error); the CloseOk of a client close answers the caller first
+        consFirst == cmsg.kind \in {"ServerClosedChannel", "ServerClosedConnection"}
         someGone == \E c \in ConsOf(slot) : RxGone(w, c)
-        w2 == IF w1.fatal # "" THEN w1
-              ELSE IF "noterminal" \in Bug
-                   THEN [w1 EXCEPT !.cq = [c \in DOMAIN w1.cq |->
-                                             IF c \in ConsOf(slot) THEN [w1.cq[c] EXCEPT !.tx = FALSE] ELSE w1.cq[c]]]
+        Tell(x) == IF x.fatal # "" THEN x
+                   ELSE IF "noterminal" \in Bug
+                   THEN [x EXCEPT !.cq = [c \in DOMAIN x.cq |->
+                                             IF c \in ConsOf(slot) THEN [x.cq[c] EXCEPT !.tx = FALSE] ELSE x.cq[c]]]
                    ELSE IF someGone
                    THEN \* which consumers were told before the failing send depends on the map's order
-                        Fatal([w1 EXCEPT !.cq = [c \in DOMAIN w1.cq |->
-                                     IF c \in ConsOf(slot) THEN [w1.cq[c] EXCEPT !.tx = FALSE, !.unsure = TRUE]
-                                     ELSE w1.cq[c]]], "EventLoopClientDropped")
-                   ELSE EndAllCons(w1, ConsOf(slot), cmsg)
+                        Fatal([x EXCEPT !.cq = [c \in DOMAIN x.cq |->
+                                     IF c \in ConsOf(slot) THEN [x.cq[c] EXCEPT !.tx = FALSE, !.unsure = TRUE]
+                                     ELSE x.cq[c]]], "EventLoopClientDropped")
+                   ELSE EndAllCons(x, ConsOf(slot), cmsg)
+        Reply(x) == IF x.fatal # "" THEN x ELSE PushRep(x, h, rep)
+        w2 == IF consFirst THEN Reply(Tell(w)) ELSE Tell(Reply(w))
     IN IF w2.fatal # "" THEN w2
        ELSE DropSenders(DropListeners([w2 EXCEPT !.slots = Del(@, n),
                                       !.hs[h].dead = TRUE, !.hs[h].tx = FALSE, !.hs[h].pend = <<>>], slot),
